@@ -360,7 +360,8 @@ def f_evt(rng, sid):
     """event floods, ring laps, immediate failures, with command traffic and back-pressure"""
     cap = rng.choice([1, 2, 3, 8])
     sep = rng.random() < 0.4
-    sc = Scenario(sid, cap=cap, buf=rng.choice([64, 96]), uns=rng.choice([0, 8, 24, 64]) if sep else -1, mutex=rng.random() < 0.3)
+    # odd sizes too: with a shared buffer the two halves then do not add up to the whole
+    sc = Scenario(sid, cap=cap, buf=rng.choice([64, 96, 65, 97, 41]), uns=rng.choice([0, 8, 24, 64]) if sep else -1, mutex=rng.random() < 0.3)
     sc.group()
     _evcmds(rng, sc)
     n = len(sc.cmds)
